@@ -157,6 +157,41 @@ class Spline final {
       : Spline(Support<T>::createEmpty(std::move(grid)), {}){};
 
   /*!
+   * @brief Default copy constructor.
+   * @param s The spline to copy.
+   */
+  Spline(const Spline &s) = default;
+
+  /*!
+   * @brief Default move constructor.
+   * @param s The spline to move.
+   */
+  Spline(Spline &&s) noexcept = default;
+
+  /*!
+   * @brief Default move assignment operator.
+   * @param s The spline to move.
+   */
+  Spline &operator=(Spline &&s) noexcept = default;
+
+  /*!
+   * Copy assignment operator. Copies first and then moves, such that this
+   * spline is left unchanged if copying the coefficients throws (a member-wise
+   * copy assignment would already have replaced the support).
+   *
+   * @brief Copy assignment operator.
+   * @param s The spline to copy.
+   * @returns A reference to this spline.
+   */
+  Spline &operator=(const Spline &s) {
+    if (this != &s) {
+      Spline copy(s);
+      *this = std::move(copy);
+    }
+    return *this;
+  }
+
+  /*!
    * @brief Returns the spline's support.
    * @returns This spline's support.
    */
